@@ -430,7 +430,11 @@ package gomatrixserverlib
 //@ func accumulateStateNeeded
 //@   property C09, C18:safety
 //@   requires result != nil
-//@   ensures member-needs: (err == nil && eventType == "m.room.member") ==> (result.Create && result.PowerLevels && inStrs(result.Member, string(sender)) && (stateKey != nil ==> inStrs(result.Member, *stateKey)) && ((content.Membership == "join" || content.Membership == "knock" || content.Membership == "invite") ==> result.JoinRules) && (content.ThirdPartyInvite != nil ==> inStrs(result.ThirdPartyInvite, content.ThirdPartyInvite.Signed.Token)) && (content.AuthorizedVia != "" ==> inStrs(result.Member, content.AuthorizedVia)))
+//@   ensures member-needs: (err == nil && eventType == "m.room.member") ==> (result.Create && result.PowerLevels && ((content.Membership == "join" || content.Membership == "knock" || content.Membership == "invite") ==> result.JoinRules))
+//@   ensures member-needs-sender: (err == nil && eventType == "m.room.member") ==> inStrs(result.Member, string(sender))
+//@   ensures member-needs-target: (err == nil && eventType == "m.room.member") ==> (stateKey != nil ==> inStrs(result.Member, *stateKey))
+//@   ensures member-needs-third-party-token: (err == nil && eventType == "m.room.member") ==> (content.ThirdPartyInvite != nil ==> inStrs(result.ThirdPartyInvite, content.ThirdPartyInvite.Signed.Token))
+//@   ensures member-needs-authorising-user: (err == nil && eventType == "m.room.member") ==> (content.AuthorizedVia != "" ==> inStrs(result.Member, content.AuthorizedVia))
 //@   ensures alias-needs: eventType == "m.room.aliases" ==> result.Create
 //@   ensures other-needs: (eventType != "m.room.create" && eventType != "m.room.aliases" && eventType != "m.room.member") ==> (result.Create && result.PowerLevels && inStrs(result.Member, string(sender)))
 //@   ensures monotone: (old(result.Create) ==> result.Create) && (old(result.PowerLevels) ==> result.PowerLevels) && (old(result.JoinRules) ==> result.JoinRules) && (forall s string :: inStrs(old(result.Member), s) ==> inStrs(result.Member, s)) && (forall s string :: inStrs(old(result.ThirdPartyInvite), s) ==> inStrs(result.ThirdPartyInvite, s))
@@ -1438,7 +1442,7 @@ package gomatrixserverlib
 //@   property C12, C18:safety
 //@   requires d != nil && d.Client != nil
 //@   ensures checked: err == nil ==> (called(CheckKeys) && ret(CheckKeys, 0).AllChecksOK)
-//@   calls CheckKeys response-of-that-server: serverName == old(serverName) && keys == ret(GetServerKeys, 0)
+//@   calls CheckKeys response-of-that-server: serverName == root_serverName && keys == ret(GetServerKeys, 0)
 //@   calls CheckKeys valid-until-future: unixNano(now) == nowNano
 //@   calls mapServerKeysToPublicKeyLookupResult checked-response: serverKeys == ret(GetServerKeys, 0)
 
@@ -1446,7 +1450,7 @@ package gomatrixserverlib
 //@   property C12, C18:safety
 //@   requires d != nil && d.Client != nil
 //@   ensures checked: err == nil ==> (called(CheckKeys) && ret(CheckKeys, 0).AllChecksOK)
-//@   calls CheckKeys response-names-server: serverName == old(serverName) && keys.ServerName == old(serverName)
+//@   calls CheckKeys response-names-server: serverName == root_serverName && keys.ServerName == root_serverName
 //@   calls CheckKeys valid-until-future: unixNano(now) == nowNano
 //@   loop 1: invariant 0 <= idx(1) && idx(1) <= len(allKeys)
 
@@ -1907,6 +1911,7 @@ package gomatrixserverlib
 //@   calls checkAllowedByAuthEvents@root against-the-state-before-the-event: event == eventToVerify && eventsByID == sp.StateBeforeEvent(ctx, eventToVerify.Version(), eventToVerify, sp.StateIDsBeforeEvent(ctx, eventToVerify)[0])[0] && missingAuth == nil && userIDForSender == root_userIDForSender
 //@   loop 1: invariant 0 <= idx(1) && idx(1) <= len(eventToVerify.AuthEventIDs()) && (forall i int :: 0 <= i && i < idx(1) ==> (exists j int :: 0 <= j && j < len(stateIDs) && stateIDs[j] == eventToVerify.AuthEventIDs()[i]))
 //@   loop 2: invariant 0 <= idx(2) && idx(2) <= len(stateIDs)
+//@   assigns sp.StateBeforeEvent(ctx, eventToVerify.Version(), eventToVerify, sp.StateIDsBeforeEvent(ctx, eventToVerify)[0])[0][*]
 
 // Safety of this function (and of AuthEvents as a provider) is not part of the C18 claim: Allowed's
 // preconditions about providers are assumptions on caller-supplied providers.
@@ -1916,6 +1921,10 @@ package gomatrixserverlib
 //@   requires event != nil && userIDForSender != nil
 //@   ensures authorised-by-the-collected-auth-events: result == nil ==> (called(Allowed) && ret(Allowed) == nil)
 //@   calls Allowed@root the-event-itself: event == root_event && userIDQuerier == root_userIDForSender
+//@   ensures without-a-provider-the-table-is-only-read: missingAuth == nil ==> (len(eventsByID) == old(len(eventsByID)) && (forall k string :: ((k in eventsByID) <==> old(k in eventsByID)) && eventsByID[k] == old(eventsByID[k])))
+//@   loop 1: invariant table-only-read-without-a-provider: missingAuth == nil ==> (len(eventsByID) == old(len(eventsByID)) && (forall k string :: ((k in eventsByID) <==> old(k in eventsByID)) && eventsByID[k] == old(eventsByID[k])))
+//@   loop 2: invariant table-only-read-without-a-provider: missingAuth == nil ==> (len(eventsByID) == old(len(eventsByID)) && (forall k string :: ((k in eventsByID) <==> old(k in eventsByID)) && eventsByID[k] == old(eventsByID[k])))
+//@   loop 3: invariant table-only-read-without-a-provider: missingAuth == nil ==> (len(eventsByID) == old(len(eventsByID)) && (forall k string :: ((k in eventsByID) <==> old(k in eventsByID)) && eventsByID[k] == old(eventsByID[k])))
 //@   assigns eventsByID[*]
 
 //@ func (EventJSONs).UntrustedEvents
@@ -1923,6 +1932,34 @@ package gomatrixserverlib
 //@   zerooffsets
 //@   ensures no-nil-events: forall i int :: 0 <= i && i < len(result) ==> result[i] != nil
 //@   loop 1: invariant 0 <= idx(1) && idx(1) <= len(e) && (forall i int :: 0 <= i && i < len(events) ==> events[i] != nil)
+
+// The sort is Kahn's algorithm over prev_events (C10 / C11 own it); here only "it is the sorted list that is checked".
+//@ func ReverseTopologicalOrdering
+//@   trusted
+//@   zerooffsets
+//@   assigns nothing
+
+// LoadAndVerify: one result per input; the sorted events are put to the signature check as one batch with the
+// loader's key ring; result i carries event i; each event is classified by the first check it fails, in the order
+// signature -> auth chain -> auth rules at the state before it, and has no error only if it passed all three.
+//@ func (*EventsLoader).LoadAndVerify
+//@   property C14
+//@   nosafety
+//@   results results, err
+//@   requires l != nil && userIDForSender != nil
+//@   ensures one-result-per-input: err == nil ==> len(results) == len(rawEvents)
+//@   calls VerifyAllEventSignatures@root the-sorted-events-with-the-loaders-key-ring: called(ReverseTopologicalOrdering) && events == ret(ReverseTopologicalOrdering) && verifier == root_l.keyRing && userIDForSender == root_userIDForSender
+//@   calls VerifyEventAuthChain@root the-event-being-classified: 0 <= idx(3) && idx(3) < len(events) && eventToVerify == events[idx(3)] && provideEvents == root_l.provider && userIDForSender == root_userIDForSender
+//@   calls VerifyAuthRulesAtState@root the-event-being-classified: 0 <= idx(3) && idx(3) < len(events) && eventToVerify == events[idx(3)] && sp == root_l.stateProvider && userIDForSender == root_userIDForSender
+//@   calls ReverseTopologicalOrdering@root every-parsed-event-is-sorted: input == events
+//@   loop 1: invariant 0 <= idx(1) && idx(1) <= len(rawEvents) && len(events) + len(errs) == idx(1)
+//@   loop 2: invariant 0 <= i && i <= len(errs)
+//@   loop 3: invariant 0 <= idx(3) && idx(3) <= len(events)
+//@   loop 3: step carries-its-event: results[old(idx(3))].Event == events[old(idx(3))]
+//@   loop 3: step a-bad-signature-is-reported-as-such: failures[old(idx(3))] != nil ==> isType(results[old(idx(3))].Error, SignatureErr)
+//@   loop 3: step then-the-auth-chain: failures[old(idx(3))] == nil ==> (ncalls(VerifyEventAuthChain) == old(ncalls(VerifyEventAuthChain)) + 1 && (ret(VerifyEventAuthChain) != nil ==> isType(results[old(idx(3))].Error, AuthChainErr)))
+//@   loop 3: step then-the-auth-rules-at-the-state: (failures[old(idx(3))] == nil && called(VerifyEventAuthChain) && ret(VerifyEventAuthChain) == nil) ==> (ncalls(VerifyAuthRulesAtState) == old(ncalls(VerifyAuthRulesAtState)) + 1 && (ret(VerifyAuthRulesAtState) != nil ==> isType(results[old(idx(3))].Error, AuthRulesErr)))
+//@   loop 3: step no-error-only-if-all-three-passed: results[old(idx(3))].Error == nil ==> (failures[old(idx(3))] == nil && ncalls(VerifyEventAuthChain) == old(ncalls(VerifyEventAuthChain)) + 1 && ret(VerifyEventAuthChain) == nil && ncalls(VerifyAuthRulesAtState) == old(ncalls(VerifyAuthRulesAtState)) + 1 && ret(VerifyAuthRulesAtState) == nil)
 
 // VerifyAllEventSignatures: one verdict per event, in order (its loop is C06's VerifyEventSignatures per element)
 //@ func VerifyAllEventSignatures
@@ -1940,15 +1977,29 @@ package gomatrixserverlib
 //@   zerooffsets
 //@   results authOut, stateOut, err
 //@   requires r != nil && userIDForSender != nil && ctx != nil
+//@   ensures no-returned-auth-event-failed-the-signature-check: err == nil ==> (called(VerifyAllEventSignatures) && (forall i int, k int :: (0 <= i && i < len(authOut) && 0 <= k && k < len(arg(VerifyAllEventSignatures, 1)) && arg(VerifyAllEventSignatures, 1)[k].EventID() == authOut[i].EventID()) ==> ret(VerifyAllEventSignatures)[k] == nil))
+//@   ensures no-returned-state-event-failed-the-signature-check: err == nil ==> (called(VerifyAllEventSignatures) && (forall i int, k int :: (0 <= i && i < len(stateOut) && 0 <= k && k < len(arg(VerifyAllEventSignatures, 1)) && arg(VerifyAllEventSignatures, 1)[k].EventID() == stateOut[i].EventID()) ==> ret(VerifyAllEventSignatures)[k] == nil))
 //@   calls VerifyAllEventSignatures@root with-the-callers-verifier: verifier == root_keyRing && userIDForSender == root_userIDForSender
+//@   calls checkAllowedByAuthEvents@root each-event-of-the-response-in-turn: 0 <= idx(5) && idx(5) < len(allEvents) && event == allEvents[idx(5)] && missingAuth == root_missingAuth && userIDForSender == root_userIDForSender
 //@   calls checkAllowedByAuthEvents@root first-lookup-table-holds-only-verified-events: !called(checkAllowedByAuthEvents) ==> (forall id string :: id in eventsByID ==> (exists i int :: 0 <= i && i < len(arg(VerifyAllEventSignatures, 1)) && arg(VerifyAllEventSignatures, 1)[i] == eventsByID[id] && ret(VerifyAllEventSignatures)[i] == nil))
+//@   calls VerifyAllEventSignatures@root every-auth-and-state-event-is-put-to-the-signature-check: len(events) == len(authEvents) + len(stateEvents) && (forall j int :: 0 <= j && j < len(authEvents) ==> (events[j] == authEvents[j] && authEvents[j].StateKey() != nil)) && (forall j int :: 0 <= j && j < len(stateEvents) ==> (events[len(authEvents)+j] == stateEvents[j] && stateEvents[j].StateKey() != nil))
 //@   loop 1: invariant 0 <= idx(1) && idx(1) <= len(authEvents)
+//@   loop 1: invariant only-state-events-so-far: len(allEvents) == idx(1) && (forall j int :: 0 <= j && j < idx(1) ==> (allEvents[j] == authEvents[j] && authEvents[j].StateKey() != nil))
 //@   loop 2: invariant 0 <= idx(2) && idx(2) <= len(stateEvents)
+//@   loop 2: invariant only-state-events-so-far: len(allEvents) == len(authEvents) + idx(2) && (forall j int :: 0 <= j && j < len(authEvents) ==> (allEvents[j] == authEvents[j] && authEvents[j].StateKey() != nil)) && (forall j int :: 0 <= j && j < idx(2) ==> (allEvents[len(authEvents)+j] == stateEvents[j] && stateEvents[j].StateKey() != nil))
+//@   loop 2: invariant state-keys-so-far-are-recorded: stateTuples != nil && (forall j int :: 0 <= j && j < idx(2) ==> (tuple(stateEvents[j].Type(), *stateEvents[j].StateKey()) in stateTuples && get(stateTuples, tuple(stateEvents[j].Type(), *stateEvents[j].StateKey()))))
+//@   loop 2: invariant no-duplicate-state-key-so-far: forall a int, b int :: 0 <= a && a < b && b < idx(2) ==> !(stateEvents[a].Type() == stateEvents[b].Type() && *stateEvents[a].StateKey() == *stateEvents[b].StateKey())
 //@   loop 3: invariant 0 <= idx(3) && idx(3) <= len(allEvents) && (forall i int :: 0 <= i && i < idx(3) ==> (errors[i] != nil ==> allEvents[i].EventID() in failures))
 //@   loop 4: invariant 0 <= idx(4) && idx(4) <= len(allEvents) && (forall id string :: id in eventsByID ==> (exists i int :: 0 <= i && i < len(allEvents) && allEvents[i] == eventsByID[id] && errors[i] == nil))
 //@   loop 5: invariant 0 <= idx(5) && idx(5) <= len(allEvents) && (!called(checkAllowedByAuthEvents) ==> (forall id string :: id in eventsByID ==> (exists i int :: 0 <= i && i < len(allEvents) && allEvents[i] == eventsByID[id] && errors[i] == nil)))
+//@   loop 5: invariant signature-failures-stay-recorded: forall i int :: 0 <= i && i < len(allEvents) ==> (errors[i] != nil ==> allEvents[i].EventID() in failures)
+//@   loop 5: step an-event-refused-by-its-auth-events-is-recorded: (called(checkAllowedByAuthEvents) && ret(checkAllowedByAuthEvents) != nil) ==> arg(checkAllowedByAuthEvents, 0).EventID() in failures
+//@   loop 5: step recorded-failures-stay: forall id string :: old(id in failures) ==> id in failures
 //@   loop 6: invariant 0 <= i && i <= len(authEvents) && (forall j int :: 0 <= j && j < i ==> !(authEvents[j].EventID() in failures))
+//@   loop 6: step the-loop-only-removes-events: (len(authEvents) == old(len(authEvents)) && i == old(i) + 1 && (forall j int :: 0 <= j && j < len(authEvents) ==> authEvents[j] == old(authEvents[j]))) || (len(authEvents) == old(len(authEvents)) - 1 && i == old(i) && old(authEvents[i]).EventID() in failures && (forall j int :: 0 <= j && j < old(i) ==> authEvents[j] == old(authEvents[j])) && (forall j int :: old(i) <= j && j < len(authEvents) ==> authEvents[j] == old(authEvents[j+1])))
 //@   loop 7: invariant 0 <= i && i <= len(stateEvents) && (forall j int :: 0 <= j && j < i ==> !(stateEvents[j].EventID() in failures))
+//@   loop 7: invariant the-auth-list-is-settled: forall j int :: 0 <= j && j < len(authEvents) ==> !(authEvents[j].EventID() in failures)
+//@   loop 7: step the-loop-only-removes-events: (len(stateEvents) == old(len(stateEvents)) && i == old(i) + 1 && (forall j int :: 0 <= j && j < len(stateEvents) ==> stateEvents[j] == old(stateEvents[j]))) || (len(stateEvents) == old(len(stateEvents)) - 1 && i == old(i) && old(stateEvents[i]).EventID() in failures && (forall j int :: 0 <= j && j < old(i) ==> stateEvents[j] == old(stateEvents[j])) && (forall j int :: old(i) <= j && j < len(stateEvents) ==> stateEvents[j] == old(stateEvents[j+1])))
 
 //@ func CheckSendJoinResponse
 //@   property C14
@@ -1967,6 +2018,7 @@ package gomatrixserverlib
 //@   requires eventToVerify != nil && provideEvents != nil && userIDForSender != nil
 //@   ensures the-event-itself-is-checked: result == nil ==> called(checkAllowedByAuthEvents)
 //@   calls checkAllowedByAuthEvents@root shared-table-and-provider: missingAuth == root_provideEvents && userIDForSender == root_userIDForSender
+//@   assigns nothing
 //@   loop 1: invariant !called(checkAllowedByAuthEvents) ==> (len(eventsToVerify) >= 1 && (forall id string :: !(id in verifiedEvents)))
 //@   loop 2: invariant 0 <= idx(2) && idx(2) <= len(curr.AuthEventIDs())
 //@   loop 3: invariant 0 <= idx(3) && idx(3) <= len(newEvents)
@@ -2023,7 +2075,15 @@ package gomatrixserverlib
 //@   ensures common-checks-on-the-counter-signed-event: result[1] == nil ==> (called(handleInviteCommonChecks) && ret(handleInviteCommonChecks, 1) == nil && result[0] == ret(handleInviteCommonChecks, 0))
 //@   calls VerifyJSONs@root the-senders-server-signed-the-redacted-event: len(requests) == 1 && requests[0].Message == ret(RedactEventJSON, 0) && requests[0].AtTS == root_input.InviteEvent.OriginServerTS() && requests[0].ValidityCheckingFunc == StrictValiditySignatureCheck && root_input.UserIDQuerier(root_input.RoomID, root_input.InviteEvent.SenderID())[1] == nil && string(requests[0].ServerName) == root_input.UserIDQuerier(root_input.RoomID, root_input.InviteEvent.SenderID())[0].domain
 //@   calls RedactEventJSON@root of-the-invite-event: eventJSON == root_input.InviteEvent.JSON() && ref(recv) == verImplRef(string(root_input.RoomVersion))
+//@   calls Sign@root counter-signed-only-after-the-origin-signature-was-verified: called(VerifyJSONs) && ret(VerifyJSONs, 1) == nil && ret(VerifyJSONs, 0)[0].Error == nil && signingName == root_input.InvitedUser.domain
 //@   calls handleInviteCommonChecks@root on-the-counter-signed-event: event == root_input.InviteEvent.Sign(root_input.InvitedUser.domain, root_input.KeyID, root_input.PrivateKey) && input == root_input
+
+// HandleInviteV3 (pseudo-ID rooms): the invite is built and signed here, under the invited user's own sender key.
+//@ func HandleInviteV3
+//@   property C15
+//@   nosafety
+//@   ensures room-matches-the-request: result[1] == nil ==> input.InviteProtoEvent.RoomID == input.RoomID.raw
+//@   ensures common-checks-on-the-built-event: result[1] == nil ==> (called(handleInviteCommonChecks) && ret(handleInviteCommonChecks, 1) == nil && result[0] == ret(handleInviteCommonChecks, 0))
 
 //@ func roomVersionSupported
 //@   property C15, C18:safety
